@@ -265,7 +265,7 @@ func c07Rules(p *core.Prog, r *core.Run) {
 	r.Floor("C07.B4", 3)
 
 	// --- B5
-	c05Direct(p, r, m)
+	c05Direct(p, r, m, "C07.B5")
 }
 
 // isRecordSize recognises int(uint16 length field of buf) + 5.
